@@ -125,6 +125,18 @@ class Behaviour:
         return sorted({v.hyp for v in self.mps + self.svs + self.asvs + self.esvs + self.pars if v.hyp},
                       key=HYP_ORDER.index)
 
+    def blocks(self):
+        """hypotheses with a block of symbols of their own (None = the common block `<f>_...`): mfront specialises a
+        hypothesis when something is declared for it alone, and the only hypothesis of a behaviour that supports one"""
+        if len(self.hyps) == 1:
+            return [self.hyps[0]]
+        sp = self.specialised()
+        return ([] if set(sp) == set(self.hyps) else [None]) + sp
+
+    def block_of(self, h):
+        """the block that answers for hypothesis h"""
+        return h if h in self.blocks() else None
+
     def block(self, h):
         """declarations seen by hypothesis h (None = common block)"""
         sel = lambda vs: [v for v in vs if v.hyp is None or v.hyp == h]
@@ -193,32 +205,52 @@ def dec_long(rng, nd=17):
     return m[0] + "." + m[1:-1] + str(rng.randint(1, 9))
 
 
-def rand_bounds(rng, cls, inside=None):
-    """cls: short | long ; inside: physical Bnd the standard bounds must stay in"""
-    val = (lambda a, b: dec_short(rng, a, b)) if cls == "short" else (lambda a, b: dec_long(rng))
-    k = rng.choice(["L", "U", "B", "B"])
-    lo = val(0.1, 5.0) if cls == "short" else dec_long(rng)
-    hi = str(float(lo) + float(dec_short(rng, 1.0, 50.0))) if cls == "short" else "%s" % repr(float(lo) * 3 + 1.0)
-    if cls == "short":
-        hi = dec_short(rng, 6.0, 90.0)
-    if rng.random() < 0.3:
-        lo = "-" + lo
-    b = Bnd(lo if k in "LB" else None, hi if k in "UB" else None)
-    if inside is not None:
-        # standard bounds must be contained in the physical ones and be at least as constraining
-        if inside.lo is not None:
-            b.lo = b.lo if (b.lo is not None and float(b.lo) >= float(inside.lo)) else str(abs(float(b.lo or "1.5")) + float(inside.lo))
-        if inside.hi is not None:
-            b.hi = b.hi if (b.hi is not None and float(b.hi) <= float(inside.hi)) else None
-            if b.hi is None:
-                lo_v = float(b.lo) if b.lo is not None else float(inside.hi) - 1.0
-                mid = (max(lo_v, float(inside.lo) if inside.lo is not None else lo_v) + float(inside.hi)) / 2
-                b.hi = repr(mid) if mid >= lo_v else inside.hi
-                if b.lo is not None and float(b.lo) > float(b.hi):
-                    b.lo = inside.lo if inside.lo is not None else None
-                    if b.lo is None:
-                        b.lo = repr(float(b.hi) - 1.0)
-    return b
+def dplus(a, b):
+    from decimal import Decimal
+    r = Decimal(a) + Decimal(b)
+    t = format(r, "f")
+    return t.rstrip("0").rstrip(".") if "." in t else t
+
+
+def lengthen(rng, txt, cls):
+    """long class: more significant digits than any fixed output precision below 17 keeps"""
+    if cls == "short" or rng.random() < 0.3:
+        return txt
+    extra = "".join(rng.choice("0123456789") for _ in range(13)) + rng.choice("123456789")
+    return txt + extra if "." in txt else txt + "." + extra
+
+
+def make_bounds(rng, v, cls, allow_phys, inherited):
+    """declared physical bounds (sometimes), then standard bounds strictly inside the effective physical ones"""
+    if allow_phys and rng.random() < 0.35:
+        lo = rng.choice(["0", "0", "-1", "0.05", None])
+        hi = rng.choice([None, None, "100", "500", "250.5"]) if lo is not None else rng.choice(["100", "500", "250.5"])
+        v.phys = Bnd(lo, hi)
+    ph = v.phys or inherited
+    if rng.random() >= 0.5:
+        return
+    want_lo = rng.random() < 0.7
+    want_hi = rng.random() < 0.7 or not want_lo
+    if ph is not None:
+        want_lo = want_lo or ph.lo is not None       # the front end refuses standard bounds less constraining than the physical ones
+        want_hi = want_hi or ph.hi is not None
+    base = ph.lo if (ph and ph.lo is not None) else rng.choice(["-5", "0", "1"])
+    if ph is not None and ph.lo is None and want_lo:
+        base = "0.125"           # front-end quirk (C38): with an upper physical bound only, a standard lower bound must be positive
+    top = ph.hi if (ph and ph.hi is not None) else None
+    lo = dplus(base, rng.choice(["0", "0.25", "0.5", "1.5"]))
+    if top is None:
+        hi = dplus(lo, rng.choice(["1", "10.5", "40", "0.75"]))
+    else:
+        hi = dplus(top, "-" + rng.choice(["0", "0.125", "0.5"]))
+        if float(hi) <= float(lo):
+            lo = base
+            if float(hi) <= float(lo):
+                hi = top
+    lo, hi = lengthen(rng, lo, cls), (hi if (top is not None and float(hi) == float(top)) else lengthen(rng, hi, cls))
+    if float(lo) > float(hi) or (top is not None and float(hi) > float(top)):
+        lo, hi = base if (ph and ph.lo is not None) else lo.split(".")[0], hi.split(".")[0] if top is None else top
+    v.bounds = Bnd(lo if want_lo else None, hi if want_hi else None)
 
 
 GLOSS = {"mp": ["YoungModulus", "PoissonRatio", "ShearModulus", "BulkModulus", "ThermalConductivity", "SpecificHeat",
@@ -241,41 +273,21 @@ def decorate(rng, v, group, used, gloss, cls, allow_phys=True, tensor_ok=False):
     elif r < 0.6:
         v.ext, v.extkind = v.name.capitalize() + rng.choice(["Ext", "_e", "Val"]), "entry"
     used.add(v.ext)
-    gb = gloss.get(v.ext) if v.extkind == "glossary" else None
-    if allow_phys and rng.random() < 0.35:
-        v.phys = Bnd("0" if rng.random() < 0.6 else dec_short(rng, 0.1, 1.0), None) if rng.random() < 0.6 else \
-            Bnd(rng.choice(["0", "-1"]), dec_short(rng, 50.0, 500.0))
-        if gb:       # stay inside the glossary bounds (mfront only warns otherwise)
-            lo = gb[0] if gb[0] is not None else None
-            if lo is not None and float(v.phys.lo) < float(lo):
-                v.phys.lo = lo
-            if gb[1] is not None:
-                v.phys.hi = gb[1] if v.phys.hi is None or float(v.phys.hi) > float(gb[1]) else v.phys.hi
-    if rng.random() < 0.45:
-        v.bounds = rand_bounds(rng, cls, None)
+    v.allow_phys = allow_phys
     return v
 
 
-def finalize_bounds(v, unit_system, gloss):
-    """glossary inheritance + containment of the standard bounds in the physical ones"""
-    if unit_system and v.extkind == "glossary" and v.phys is None and v.ext in gloss:
-        lo, hi = gloss[v.ext]
-        v.phys_inherited = Bnd(lo, hi)
-    ph = v.eff_phys()
-    if v.bounds and ph:
-        b = v.bounds
-        if ph.lo is not None and (b.lo is None or float(b.lo) < float(ph.lo)):
-            b.lo = ph.lo if b.lo is None else repr(abs(float(b.lo)) + float(ph.lo))
-        if ph.hi is not None and (b.hi is None or float(b.hi) > float(ph.hi)):
-            b.hi = ph.hi
-        if b.lo is not None and b.hi is not None and float(b.lo) > float(b.hi):
-            b.lo = ph.lo if ph.lo is not None else repr(float(b.hi) - 1.0)
-        # front-end quirk (seen by C38): with an upper physical bound only, the default physical lower bound is the
-        # smallest positive long double: negative standard lower bounds are refused
-        if ph.lo is None and b.lo is not None and float(b.lo) <= 0:
-            b.lo = "0.125"
-            if b.hi is not None and float(b.hi) < 0.125:
-                v.bounds = None
+def finalize_bounds(rng, v, unit_system, gloss, cls):
+    """glossary inheritance, then the declared bounds"""
+    inherited = None
+    if unit_system and v.extkind == "glossary" and v.ext in gloss:
+        inherited = Bnd(*gloss[v.ext])
+    make_bounds(rng, v, cls, getattr(v, "allow_phys", True), inherited)
+    if v.phys is None and inherited is not None:
+        v.phys_inherited = inherited
+    elif v.phys is not None and inherited is not None:
+        # declared physical bounds are kept as they are (mfront only compares them with the glossary ones)
+        v.phys_inherited = None
 
 
 NAMES = {"mp": ["young", "nu", "kk", "mu", "rho", "lam", "cp"], "sv": ["p", "q", "ev", "a", "g", "dmg"], "asv": ["w", "seq", "tau"],
@@ -312,17 +324,18 @@ def rand_behaviour(rng, idx, gloss, cls, force=None):
     b.esvs = mk("esv", rng.sample(NAMES["esv"], rng.choice([0, 1, 2])), ["real", "temperature"])
     b.pars = mk("par", rng.sample(NAMES["par"], rng.choice([1, 2, 3])), ["real", "stress", "real"])
     for p in b.pars:
-        p.phys = None           # physical bounds of parameters: keep to standard bounds (both are exported the same way)
         p.dflt = [dec_short(rng) if cls == "short" or rng.random() < 0.4 else dec_long(rng, rng.choice([9, 12, 17])) for _ in range(p.size)]
-    if force == "array-bounds" and not any(v.size > 1 and v.bounds for v in b.svs + b.mps + b.esvs):
-        v = Var("arr", "real", 2)
-        v.bounds = Bnd("0", "1")
-        b.svs.append(v)
+    forced = None
+    if force == "array-bounds":
+        forced = Var("arr", "real", 2)
+        b.svs.append(forced)
     for v in b.mps + b.svs + b.asvs + b.esvs + b.pars:
-        if v.tid != 0:
-            v.phys = None        # bounds of tensorial variables apply to components: not generated
-            v.bounds = None
-        finalize_bounds(v, b.unit_system, gloss)
+        if v.tid == 0:           # bounds of tensorial variables apply to components: not generated
+            if v in b.pars:
+                v.allow_phys = False
+            finalize_bounds(rng, v, b.unit_system, gloss, cls)
+        if v is forced:
+            v.bounds, v.phys = Bnd("0", "1"), None
         if v in b.pars and v.bounds:      # the default value must lie inside the bounds
             lo = float(v.bounds.lo) if v.bounds.lo is not None else None
             hi = float(v.bounds.hi) if v.bounds.hi is not None else None
@@ -388,11 +401,10 @@ def rand_matprop(rng, idx, gloss, cls):
     for n in rng.sample(["a", "b", "c1"], rng.choice([1, 2, 3])):
         v = Var(n, rng.choice(["real", "stress"]))
         decorate(rng, v, "par", used, gloss, cls, allow_phys=False)
-        v.bounds = None
         v.dflt = [dec_short(rng) if cls == "short" or rng.random() < 0.4 else dec_long(rng, rng.choice([9, 12, 17]))]
         m.pars.append(v)
     for v in m.inputs + [m.output]:
-        finalize_bounds(v, m.unit_system, gloss)
+        finalize_bounds(rng, v, m.unit_system, gloss, cls)
     m.text = matprop_text(m, rng)
     return m
 
@@ -540,7 +552,7 @@ def run(ck):
     q = []
     index = []
     for b in progs:
-        for h in [None] + b.specialised():
+        for h in b.blocks():
             pfx = b.f if h is None else "%s_%s" % (b.f, h)
             blk = b.block(h)
             q.append("emit %s %s\n" % (pfx, enc_block(blk)))
@@ -555,11 +567,11 @@ def run(ck):
         if wf != "ok":
             note("corr:model-precondition", "corr", "the generated declarations of %s do not satisfy the hypothesis of the theorems: %s" % (b.name, wf),
                  {"behaviour": b.name, "mfront_file": b.text})
-        src = os.path.join(gendir, "src", "%s-generic.cxx" % b.name)
+        src = os.path.join(gendir, "src", "%s-generic.cxx" % b.f)
         if b.name not in emitted_tables:
             emitted_tables[b.name] = parse_symbols(open(src).read())
         em = emitted_tables[b.name]
-        other_prefixes = [b.f + "_" + x + "_" for x in b.specialised()]
+        other_prefixes = [b.f + "_" + x + "_" for x in b.blocks() if x is not None]
         for name, val in sorted(model.items()):
             stats["symbols_compared"] += 1
             got = em.get(name)
@@ -585,7 +597,7 @@ def run(ck):
                  "generated source of %s defines %s = %s, which no declaration accounts for" % (b.name, name, show_val(val)),
                  {"behaviour": b.name, "hypothesis": h, "symbol": name, "emitted": val, "mfront_file": b.text})
         # general symbols checked against the declarations directly
-        if h is None:
+        if h == b.blocks()[0]:
             exp = {b.f + "_nModellingHypotheses": "u:%d" % len(b.hyps), b.f + "_ModellingHypotheses": "s:" + ",".join(b.hyps),
                    b.f + "_mfront_mkt": "u:1", b.f + "_src": "t:%s.mfront" % b.name, b.f + "_mfront_interface": "t:Generic",
                    b.f + "_unit_system": "t:" + ("SI" if b.unit_system else ""),
@@ -639,7 +651,7 @@ def run(ck):
                      libs=ck.libflags("TFELSystem", "TFELException") + ["-ldl"])
     jobs = []
     for b in progs[:nb_lib]:
-        jobs.append(("libC45_%s.so" % b.name, [os.path.join(gendir, "src", "%s-generic.cxx" % b.name), os.path.join(gendir, "src", "%s.cxx" % b.name)]))
+        jobs.append(("libC45_%s.so" % b.name, [os.path.join(gendir, "src", "%s-generic.cxx" % b.f), os.path.join(gendir, "src", "%s.cxx" % b.f)]))
     tu = ck.write("c45_mp_tu.cxx", "".join('#include "%s"\n' % os.path.join(gendir, "src", "%s-generic.cxx" % x)
                                            for x in [m.f for m in mps] + [(m.material + "_" if m.material else "") + t for (m, _, _, t) in twins]))
     jobs.append(("libC45_MP.so", [tu]))
@@ -670,7 +682,7 @@ def run(ck):
         ask(lib, b.f, None, "str unit_system", "[%s]" % ("SI" if b.unit_system else ""), "general", {"behaviour": b.name, "mfront_file": b.text})
         ask(lib, b.f, None, "str src", "[%s.mfront]" % b.name, "general", {"behaviour": b.name, "mfront_file": b.text})
         for h in b.hyps:
-            blk = b.block(h if h in b.specialised() else None)
+            blk = b.block(b.block_of(h))
             rep = {"behaviour": b.name, "hypothesis": h, "mfront_file": b.text}
             first = len(lines)
             for cat, key in zip(CATS, ["mps", "isvs", "esvs", "pars"]):
@@ -684,8 +696,9 @@ def run(ck):
                         if key == "pars":
                             ask(lib, b.f, h, "default " + n, bits(float(v.dflt[k])), "default", dict(rep, variable=n, declared_default=v.dflt[k]))
             # the same questions to the Lean readers
-            if h in b.specialised():
-                lean_q.append("read2 %s %s %s %s\n" % (b.f, h, enc_block(b.block(None)), enc_block(blk)))
+            if b.block_of(h) is not None:
+                common = b.block(None) if None in b.blocks() else blk
+                lean_q.append("read2 %s %s %s %s\n" % (b.f, h, enc_block(common), enc_block(blk)))
             else:
                 lean_q.append("read %s %s\n" % (b.f, enc_block(blk)))
             lean_idx.append((first, len(lines), blk))
@@ -896,7 +909,7 @@ def compare_range(txt, b):
 def mfront_query_behaviour(ck, b, gendir, note, hist, stats):
     fname = b.name + ".mfront"
     for h in b.hyps:
-        blk = b.block(h if h in b.specialised() else None)
+        blk = b.block(b.block_of(h))
         base = ["--modelling-hypothesis=" + h]
         for opt, vs in (("--material-properties", blk["mps"]), ("--state-variables", [v for v in blk["isvs"] if v in b.svs]),
                         ("--auxiliary-state-variables", [v for v in blk["isvs"] if v in b.asvs]),
